@@ -1,264 +1,26 @@
-(* Primality of the group orders / field moduli used by the node's curves, proved inside Coq by
-   Pocklington–Lehmer certificates (Base/Pocklington.v): no axioms, no hypotheses.
+(* Primality of the group orders / field moduli of the node's curves, proved inside Coq by
+   Pocklington-Lehmer certificates (Base/Pocklington.v): no axioms, no hypotheses.  This file only
+   re-exports the per-prime files; import the one you need to keep your dependency cone (and the
+   coqchk time of its certificate, which coqchk re-evaluates without the virtual machine) small:
 
-   The certificates below were produced outside Coq (untrusted) by a small script: factor N-1 (sympy),
-   take the largest prime powers q^e until their product F satisfies (F+1)^2 > N, search a witness
-   a = 2, 3, ... for every chosen q, recurse on every chosen q >= 2^16, trial division below; emit the
-   steps so that every step comes before the steps proving its q's.  Coq only checks them:
-   [pock_check c = true] is evaluated by the virtual machine (once, at Qed), then [pock_check_sound]
-   applies.  Each [Pock n [(q, e, a); ...]] step says: the q^e divide n-1 and are pairwise coprime,
-   their product F satisfies (F+1)^2 > n, every q is proved prime by a later step of the same list,
-   a^(n-1) = 1 (mod n) and gcd(a^((n-1)/q) - 1, n) = 1.  [Trial n] is trial division.  About 1 s of
-   checking per 256-bit modular exponentiation; the whole file builds in about 25 s.
+     Base/PrimeBn256Order.v   bn256_order_prime   (+ bn256_order_prime' : prime bn256_order)
+     Base/PrimeBn256Field.v   bn256_field_prime   (+ ')
+     Base/PrimeEd25519Ell.v   ed25519_ell_prime   (+ ')
+     Base/PrimeEd25519P.v     ed25519_p_prime     (+ ')
+     Base/PrimeAltBn128.v     alt_bn128_order_prime, alt_bn128_field_prime (+ ')
+     Base/PrimeBridge.v       Zprime_prime_nat : Znumtheory.prime q -> prime (Z.to_nat q)   (mathcomp)
 
    NOTE on the BN curve: src/consensus/groupsig/bn256/constants.go is the original golang.org/x/crypto
-   bn256 parameter set (u = 1868033^3), NOT Ethereum's alt_bn128.  [bn256_order] / [bn256_field] below
-   are the node's constants (Order / P of constants.go; C13.Model.curve_order is bn256_order); the
-   alt_bn128 constants are proved prime as well for reference. *)
-From Coq Require Import ZArith Znumtheory List.
-From V.Base Require Import Pocklington.
-Import ListNotations.
-Local Open Scope Z_scope.
+   bn256 parameter set (u = 1868033^3), NOT Ethereum's alt_bn128.  [bn256_order] / [bn256_field] are the
+   node's constants (Order / P of constants.go; C13.Model.curve_order is bn256_order); the alt_bn128
+   constants are proved prime as well for reference.
 
-(* ---- the numbers ---- *)
-
-(* bn256/constants.go: Order = 36u^4+36u^3+18u^2+6u+1, u = 1868033^3 (= C13.Model.curve_order) *)
-Definition bn256_order : Z :=
-  65000549695646603732796438742359905742570406053903786389881062969044166799969.
-(* bn256/constants.go: P = 36u^4+36u^3+24u^2+6u+1 *)
-Definition bn256_field : Z :=
-  65000549695646603732796438742359905742825358107623003571877145026864184071783.
-(* Ethereum alt_bn128 (BN254) group order r and base-field modulus p — not used by the node *)
-Definition alt_bn128_order : Z :=
-  21888242871839275222246405745257275088548364400416034343698204186575808495617.
-Definition alt_bn128_field : Z :=
-  21888242871839275222246405745257275088696311157297823662689037894645226208583.
-(* ed25519: order of the base point, ell = 2^252 + 27742317777372353535851937790883648493
-   (= Z.of_N C16.Model.ell25519), and the field modulus 2^255 - 19 *)
-Definition ed25519_ell : Z :=
-  7237005577332262213973186563042994240857116359379907606001950938285454250989.
-Definition ed25519_p : Z :=
-  57896044618658097711785492504343953926634992332820282019728792003956564819949.
-
-Example ed25519_ell_value : ed25519_ell = 2 ^ 252 + 27742317777372353535851937790883648493.
-Proof. vm_compute. reflexivity. Qed.
-Example ed25519_p_value : ed25519_p = 2 ^ 255 - 19.
-Proof. vm_compute. reflexivity. Qed.
-Example bn256_order_value : let u := 1868033 ^ 3 in
-  bn256_order = 36 * u ^ 4 + 36 * u ^ 3 + 18 * u ^ 2 + 6 * u + 1.
-Proof. vm_compute. reflexivity. Qed.
-Example bn256_field_value : let u := 1868033 ^ 3 in
-  bn256_field = 36 * u ^ 4 + 36 * u ^ 3 + 24 * u ^ 2 + 6 * u + 1.
-Proof. vm_compute. reflexivity. Qed.
-
-(* ---- the certificates (generated; see the header) ---- *)
-
-(* cert_bn256_order : 10 steps *)
-Definition cert_bn256_order : list cert := [
-  Pock 65000549695646603732796438742359905742570406053903786389881062969044166799969
-    [(1868033, 3, 2); (491513138693455212421542731357, 1, 2)];
-  Pock 491513138693455212421542731357
-    [(31084817777223324843254663, 1, 2)];
-  Pock 31084817777223324843254663
-    [(263430659129011227485209, 1, 2)];
-  Pock 263430659129011227485209
-    [(3658759154569600381739, 1, 2)];
-  Pock 3658759154569600381739
-    [(71260195429, 1, 2)];
-  Pock 71260195429
-    [(977, 1, 2); (6473, 1, 2)];
-  Trial 6473;
-  Trial 977;
-  Pock 1868033
-    [(7297, 1, 2)];
-  Trial 7297
-].
-
-(* cert_bn256_field : 16 steps *)
-Definition cert_bn256_field : list cert := [
-  Pock 65000549695646603732796438742359905742825358107623003571877145026864184071783
-    [(5332323573263718838033, 1, 2); (1374947842730272154058024133, 1, 2)];
-  Pock 1374947842730272154058024133
-    [(81767558454161, 1, 2)];
-  Pock 81767558454161
-    [(151573, 1, 2); (6743249, 1, 2)];
-  Pock 6743249
-    [(421453, 1, 2)];
-  Pock 421453
-    [(23, 1, 2); (509, 1, 2)];
-  Trial 509;
-  Trial 23;
-  Pock 151573
-    [(743, 1, 2)];
-  Trial 743;
-  Pock 5332323573263718838033
-    [(1145258499412310747, 1, 2)];
-  Pock 1145258499412310747
-    [(572629249706155373, 1, 2)];
-  Pock 572629249706155373
-    [(13954314497177, 1, 2)];
-  Pock 13954314497177
-    [(5745221, 1, 2)];
-  Pock 5745221
-    [(19, 1, 2); (1163, 1, 2)];
-  Trial 1163;
-  Trial 19
-].
-
-(* cert_alt_bn128_order : 13 steps *)
-Definition cert_alt_bn128_order : list cert := [
-  Pock 21888242871839275222246405745257275088548364400416034343698204186575808495617
-    [(1670836401704629, 1, 2); (13818364434197438864469338081, 1, 2)];
-  Pock 13818364434197438864469338081
-    [(65865678001877903, 1, 2)];
-  Pock 65865678001877903
-    [(639533339, 1, 2)];
-  Pock 639533339
-    [(853, 1, 2); (1637, 1, 2)];
-  Trial 1637;
-  Trial 853;
-  Pock 1670836401704629
-    [(5156902474397, 1, 2)];
-  Pock 5156902474397
-    [(12048837557, 1, 2)];
-  Pock 12048837557
-    [(661, 1, 2); (93001, 1, 2)];
-  Pock 93001
-    [(5, 3, 2); (31, 1, 2)];
-  Trial 31;
-  Trial 5;
-  Trial 661
-].
-
-(* cert_alt_bn128_field : 9 steps *)
-Definition cert_alt_bn128_field : list cert := [
-  Pock 21888242871839275222246405745257275088696311157297823662689037894645226208583
-    [(13427688667394608761327070753331941386769, 1, 2)];
-  Pock 13427688667394608761327070753331941386769
-    [(173171039, 1, 2); (2480874801745591, 1, 2)];
-  Pock 2480874801745591
-    [(35385462869, 1, 2)];
-  Pock 35385462869
-    [(1263766531, 1, 2)];
-  Pock 1263766531
-    [(911, 1, 2); (3557, 1, 2)];
-  Trial 3557;
-  Trial 911;
-  Pock 173171039
-    [(13327, 1, 2)];
-  Trial 13327
-].
-
-(* cert_ed25519_ell : 10 steps *)
-Definition cert_ed25519_ell : list cert := [
-  Pock 7237005577332262213973186563042994240857116359379907606001950938285454250989
-    [(276602624281642239937218680557139826668747, 1, 2)];
-  Pock 276602624281642239937218680557139826668747
-    [(19757330305831588566944191468367130476339, 1, 2)];
-  Pock 19757330305831588566944191468367130476339
-    [(172054593956031949258510691, 1, 2)];
-  Pock 172054593956031949258510691
-    [(4434155615661930479, 1, 2)];
-  Pock 4434155615661930479
-    [(1257559732178653, 1, 2)];
-  Pock 1257559732178653
-    [(531581, 1, 2); (1224481, 1, 2)];
-  Pock 1224481
-    [(2551, 1, 2)];
-  Trial 2551;
-  Pock 531581
-    [(3797, 1, 2)];
-  Trial 3797
-].
-
-(* cert_ed25519_p : 17 steps *)
-Definition cert_ed25519_p : list cert := [
-  Pock 57896044618658097711785492504343953926634992332820282019728792003956564819949
-    [(74058212732561358302231226437062788676166966415465897661863160754340907, 1, 2)];
-  Pock 74058212732561358302231226437062788676166966415465897661863160754340907
-    [(31757755568855353, 1, 2); (75445702479781427272750846543864801, 1, 2)];
-  Pock 75445702479781427272750846543864801
-    [(72106336199, 1, 2); (1919519569386763, 1, 2)];
-  Pock 1919519569386763
-    [(47, 2, 2); (8574133, 1, 2)];
-  Pock 8574133
-    [(103, 1, 2); (991, 1, 2)];
-  Trial 991;
-  Trial 103;
-  Trial 47;
-  Pock 72106336199
-    [(2773320623, 1, 2)];
-  Pock 2773320623
-    [(569003, 1, 2)];
-  Pock 569003
-    [(97, 1, 2); (419, 1, 2)];
-  Trial 419;
-  Trial 97;
-  Pock 31757755568855353
-    [(4153, 1, 2); (430751, 1, 2)];
-  Pock 430751
-    [(1723, 1, 2)];
-  Trial 1723;
-  Trial 4153
-].
-
-(* ---- the theorems ---- *)
-
-(* the node's BN group order (constants.go Order, C13 curve_order) *)
-Theorem bn256_order_prime : prime 65000549695646603732796438742359905742570406053903786389881062969044166799969.
-Proof.
-  refine (pock_check_sound _ _ (_ : pock_check cert_bn256_order = true)).
-  vm_cast_no_check (@eq_refl bool true).
-Qed.
-Print Assumptions bn256_order_prime.
-
-(* the node's BN base-field modulus (constants.go P) *)
-Theorem bn256_field_prime : prime 65000549695646603732796438742359905742825358107623003571877145026864184071783.
-Proof.
-  refine (pock_check_sound _ _ (_ : pock_check cert_bn256_field = true)).
-  vm_cast_no_check (@eq_refl bool true).
-Qed.
-Print Assumptions bn256_field_prime.
-
-(* Ethereum's alt_bn128 group order *)
-Theorem alt_bn128_order_prime : prime 21888242871839275222246405745257275088548364400416034343698204186575808495617.
-Proof.
-  refine (pock_check_sound _ _ (_ : pock_check cert_alt_bn128_order = true)).
-  vm_cast_no_check (@eq_refl bool true).
-Qed.
-Print Assumptions alt_bn128_order_prime.
-
-(* Ethereum's alt_bn128 base-field modulus *)
-Theorem alt_bn128_field_prime : prime 21888242871839275222246405745257275088696311157297823662689037894645226208583.
-Proof.
-  refine (pock_check_sound _ _ (_ : pock_check cert_alt_bn128_field = true)).
-  vm_cast_no_check (@eq_refl bool true).
-Qed.
-Print Assumptions alt_bn128_field_prime.
-
-(* the order of the ed25519 base point (C16 ell25519) *)
-Theorem ed25519_ell_prime : prime 7237005577332262213973186563042994240857116359379907606001950938285454250989.
-Proof.
-  refine (pock_check_sound _ _ (_ : pock_check cert_ed25519_ell = true)).
-  vm_cast_no_check (@eq_refl bool true).
-Qed.
-Print Assumptions ed25519_ell_prime.
-
-(* 2^255 - 19 *)
-Theorem ed25519_p_prime : prime 57896044618658097711785492504343953926634992332820282019728792003956564819949.
-Proof.
-  refine (pock_check_sound _ _ (_ : pock_check cert_ed25519_p = true)).
-  vm_cast_no_check (@eq_refl bool true).
-Qed.
-Print Assumptions ed25519_p_prime.
-
-(* the same statements about the named constants *)
-Corollary bn256_order_prime' : prime bn256_order.         Proof. exact bn256_order_prime. Qed.
-Corollary bn256_field_prime' : prime bn256_field.         Proof. exact bn256_field_prime. Qed.
-Corollary alt_bn128_order_prime' : prime alt_bn128_order. Proof. exact alt_bn128_order_prime. Qed.
-Corollary alt_bn128_field_prime' : prime alt_bn128_field. Proof. exact alt_bn128_field_prime. Qed.
-Corollary ed25519_ell_prime' : prime ed25519_ell.         Proof. exact ed25519_ell_prime. Qed.
-Corollary ed25519_p_prime' : prime ed25519_p.             Proof. exact ed25519_p_prime. Qed.
+   Each [Pock n [(q, e, a); ...]] step of a certificate says: the q^e divide n-1 and are pairwise
+   coprime, their product F satisfies (F+1)^2 > n, every q is proved prime by a later step of the same
+   list, a^(n-1) = 1 (mod n) and gcd(a^((n-1)/q) - 1, n) = 1.  [Trial n] is trial division.  About
+   1-1.5 s of checking per 256-bit modular exponentiation. *)
+From V.Base Require Export Pocklington PrimeBn256Order PrimeBn256Field PrimeEd25519Ell PrimeEd25519P
+  PrimeAltBn128.
 
 (* ---- the certificate generator (untrusted; python3 with sympy), for regeneration:
         python3 gen.py cert_name N   prints the Definition of a certificate for the prime N ----
